@@ -418,6 +418,9 @@ func Check(env *core.Env, rep *core.Report) *core.Result {
 		}
 		p := task.FromCommands(cmds...)
 		p.Name = "prod"
+		if i%5 == 3 {
+			p.Interactive = true // an interactive task's output is captured and handed over like any other
+		}
 		if c.nv == 2 {
 			p.Variations = []map[string]string{{"VV": "1"}, {"VV": "2"}}
 		}
@@ -440,7 +443,7 @@ func Check(env *core.Env, rep *core.Report) *core.Result {
 				prev = string(perCmdAll[j])
 			}
 		}
-		desc := fmt.Sprintf("[commands %v to %v, %d variation(s), output format %s]", c.pay, c.to, c.nv, c.format)
+		desc := fmt.Sprintf("[commands %v to %v, %d variation(s), output format %s, interactive=%v]", c.pay, c.to, c.nv, c.format, p.Interactive)
 		if p.Output() != string(want) {
 			add("capture:task-output-differs", fmt.Sprintf("Task.Output() has %d bytes, the commands wrote %d bytes to stdout %s", len(p.Output()), len(want), desc), map[string]interface{}{"case": c, "got_prefix": clip(p.Output()), "want_prefix": clip(string(want))})
 		}
